@@ -89,6 +89,14 @@ fn strings_over(alpha: &[u8], maxlen: usize) -> Vec<Vec<u8>> {
     out
 }
 
+
+/// T2c: structured long cases, regenerated from four numbers (so that a counterexample is replayable without storing 64 KiB of hex):
+/// reference of `r` bytes, `n` inputs of `l` bytes each, content pattern `p` (0: one byte value per input -- long runs; otherwise varying)
+fn gen_case(r: usize, n: usize, l: usize, p: usize) -> (Vec<u8>, Vec<Vec<u8>>) {
+    let reference: Vec<u8> = (0..r).map(|i| (i * 7 + 3) as u8).collect();
+    let xs: Vec<Vec<u8>> = (0..n).map(|k| (0..l).map(|j| (k * 31 + j * p + 1) as u8).collect()).collect();
+    (reference, xs)
+}
 struct Rng(u64);
 impl Rng { fn next(&mut self) -> u64 { self.0 ^= self.0 << 13; self.0 ^= self.0 >> 7; self.0 ^= self.0 << 17; self.0 } }
 
@@ -100,11 +108,12 @@ fn main() {
     if mode == "replay" {
         // replay <kind> <ref-hex> <data-hex | in1,in2,...>
         let kind = &args[2];
-        let r = unhex(&args[3]);
+        let r = if kind == "gen" { vec![] } else { unhex(&args[3]) };
         let res = match kind.as_str() {
             "decode" => case_decode(&r, &unhex(&args[4])).map(|_| ()),
             "delta" => case_delta(&r, &unhex(&args[4])).map(|_| ()),
             "rt" => { let xs: Vec<Vec<u8>> = if args[4].is_empty() { vec![] } else { args[4].split(',').map(unhex).collect() }; case_rt(&r, &xs) }
+            "gen" => { let v: Vec<usize> = args[4].split(',').map(|x| x.parse().unwrap()).collect(); let (r0, xs) = gen_case(args[3].parse().unwrap(), v[0], v[1], v[2]); case_rt(&r0, &xs) }
             _ => Err("unknown kind".into()),
         };
         match res { Ok(()) => { println!("REPLAY-OK"); } Err(e) => { println!("REPLAY-FAIL {e}"); std::process::exit(1); } }
@@ -182,6 +191,19 @@ fn main() {
         } } }
     }
     samples.push(format!("rt ref={} inputs=[{},{}]", hex(&rrefs[5]), hex(&inputs3[20]), hex(&inputs3[70])));
+    // T2c: long inputs and long sequences (the lengths around the byte boundaries of the 2-byte length prefix, the largest length, and
+    // sequences around the 128/129 inputs a packet can carry)
+    for &r in &[0usize, 2, 300] { for &p in &[0usize, 13] {
+        for &n in &[1usize, 2, 3] { for &l in &[0usize, 1, 2, 3, 254, 255, 256, 257, 258, 511, 512, 513, 1000, 4096, 65534, 65535] {
+            let (r0, xs) = gen_case(r, n, l, p); evals += 1;
+            if let Err(e) = case_rt(&r0, &xs) { if violations.len() < 5 { violations.push(format!("gen|{r}|{n},{l},{p} :: {}", &e[..e.len().min(300)])); } }
+        } }
+        for &n in &[127usize, 128, 129, 130, 200, 300] { for &l in &[0usize, 1, 4] {
+            let (r0, xs) = gen_case(r, n, l, p); evals += 1;
+            if let Err(e) = case_rt(&r0, &xs) { if violations.len() < 5 { violations.push(format!("gen|{r}|{n},{l},{p} :: {}", &e[..e.len().min(300)])); } }
+        } }
+    } }
+    samples.push("rt-gen ref_len=300 inputs=3 x 65535 bytes, pattern 13".to_string());
     // T2b: long inputs with runs of 00/ff around the run-length and varint boundaries (seeded)
     let mut rng = Rng(0x9E3779B97F4A7C15 ^ seed.wrapping_mul(0xD1B54A32D192ED03) | 1);
     let n_long = if thorough { 20000 } else { 2000 };
